@@ -708,7 +708,9 @@ where
         let offset = to.byte as i64 - self.position.byte as i64;
         let pos = self.buf_pos.pos.0 as i64 + offset;
 
-        if pos >= 0 && pos < (self.get_buf().len() as i64) {
+        // A new reader never has the data at `to` in its buffer: if there is
+        // any data, it is the incomplete result of a first read that failed.
+        if self.state != State::New && pos >= 0 && pos < (self.get_buf().len() as i64) {
             // position reachable within buffer -> no actual seeking necessary
             self.position = to.clone();
             self.incomplete_pos = None;
